@@ -37,6 +37,7 @@ var (
 
 type entryPos struct {
 	pos, dataStart, end int // [pos,end) whole record, dataStart = after the length prefix
+	dataTag             int // position of the data field's tag (0 if not found)
 	hdrEnd, cksStart    int // proto header [dataStart,hdrEnd), checksum field [cksStart,end)
 }
 
@@ -62,6 +63,7 @@ func parseSegment(b []byte) ([]entryPos, bool) {
 		if q < e.end && b[q] == 0x12 {
 			l, m := binary.Uvarint(b[q+1 : e.end])
 			if m > 0 && q+1+m+int(l) <= e.end {
+				e.dataTag = q
 				e.hdrEnd = q + 1 + m
 				e.cksStart = q + 1 + m + int(l)
 			}
@@ -337,6 +339,23 @@ func runCase(r *ev.Run, idx int) {
 		img[e.pos] = byte(merged)
 		faults = append(faults, fault{kind: "merge", desc: fmt.Sprintf("length prefix of entry %d of %d: %d -> %d (covers the next entry too)", ei+1, len(entries), pristine[e.pos], merged), cls: "lenprefix", img: img})
 	}
+	// crafted: an entry that carries its data and checksum fields twice (its own, then those of
+	// another entry): a decoder that lets the last occurrence win applies the other mutation in
+	// its place, checksum and all
+	if len(entries) > 1 {
+		for c := 0; c < 3; c++ {
+			ki, ji := rng.Intn(len(entries)), rng.Intn(len(entries))
+			e, o := entries[ki], entries[ji]
+			if ki == ji || e.dataTag == 0 || o.dataTag == 0 {
+				continue
+			}
+			body := append(append([]byte{}, pristine[e.dataStart:e.end]...), pristine[o.dataTag:o.end]...)
+			var lp [binary.MaxVarintLen64]byte
+			n := binary.PutUvarint(lp[:], uint64(len(body)))
+			img := append(append(append(append([]byte{}, pristine[:e.pos]...), lp[:n]...), body...), pristine[e.end:]...)
+			faults = append(faults, fault{kind: "repeated-fields", desc: fmt.Sprintf("entry %d of %d carries, after its own fields, the data and checksum fields of entry %d", ki+1, len(entries), ji+1), cls: "payload", img: img})
+		}
+	}
 	for k := 0; k < 32; k++ { // informational only: garbage after the last complete entry
 		gb := make([]byte, 1+rng.Intn(40))
 		rng.Read(gb)
@@ -530,7 +549,7 @@ func openImage(cfg aof.Config) (d *aof.DiskKV, err error, pan string) {
 
 func main() {
 	r := ev.Start("C22", "fault_enumeration")
-	r.SetRule("a history = 12-32 (52 thorough) PRNG mutations on the real AOF store (every 6th behind >= 2 MB of large values so the log has several segments, every 4th with a clean restart in the middle), stopped cleanly; fault images of the last segment file: truncation to every offset; the tail zeroed from every offset; every byte of the last entry xor {0x01,0x80,0xff,random}; seeded: 288 contiguous byte ranges inside ONE entry (last, or an earlier one with the later entries intact) replaced by PRNG garbage or zeros, 96 single-byte xors of earlier entries; crafted: 3 entries whose payload+checksum are masked as an unknown field, every entry whose length prefix is enlarged to swallow its successor; and up to 2 'rejected append left at the tail' images (an earlier PrefixAppend whose child still exists repeated at the end), opened, given empty-valued puts and a clean stop, and opened again. A case = one image reopened with aof.New; distinct+non-trivial by (fault kind, where it hits: entry boundary / length prefix / header / payload / checksum, last or earlier entry, single/multi segment, outcome: error / final / intermediate / empty state). 32 garbage tails per history are reopened too but only counted (outside the judged fault model)")
+	r.SetRule("a history = 12-32 (52 thorough) PRNG mutations on the real AOF store (every 6th behind >= 2 MB of large values so the log has several segments, every 4th with a clean restart in the middle), stopped cleanly; fault images of the last segment file: truncation to every offset; the tail zeroed from every offset; every byte of the last entry xor {0x01,0x80,0xff,random}; seeded: 288 contiguous byte ranges inside ONE entry (last, or an earlier one with the later entries intact) replaced by PRNG garbage or zeros, 96 single-byte xors of earlier entries; crafted: 3 entries whose payload+checksum are masked as an unknown field, every entry whose length prefix is enlarged to swallow its successor, 3 entries that carry their data and checksum fields twice (the second pair taken from another entry); and up to 2 'rejected append left at the tail' images (an earlier PrefixAppend whose child still exists repeated at the end), opened, given empty-valued puts and a clean stop, and opened again. A case = one image reopened with aof.New; distinct+non-trivial by (fault kind, where it hits: entry boundary / length prefix / header / payload / checksum, last or earlier entry, single/multi segment, outcome: error / final / intermediate / empty state). 32 garbage tails per history are reopened too but only counted (outside the judged fault model)")
 	r.Assume("histories are sampled; per history the truncation offsets and last-entry byte positions are enumerated completely, multi-byte and earlier-entry corruptions are seeded samples")
 	r.Assume("a fault is modelled as a change of the bytes of the last segment file only (older segments were synced when the segment was closed)")
 	r.Assume("the harness' parser of the tidwall/wal binary framing is used only to classify fault positions, never to decide")
